@@ -1732,6 +1732,18 @@ class Interp:
                             raise PyRaise(VExc('KeyError', (key,)))
                     st.hset('k:%s#has' % key.s, z3.IntSort(), obj.t, z3.IntVal(0))
                     continue
+                if isinstance(obj, VList) and not isinstance(tgt.slice, ast.Slice):
+                    # del xs[i]
+                    i = self.idx(key)
+                    n = list_len(st, obj)
+                    ok = z3.And(i >= -n, i < n)
+                    if not st.valid(ok):
+                        if not st.branch_bool(ok, 'index'):
+                            raise PyRaise(VExc('IndexError', (VStr('list assignment index out of range'),)))
+                    if not st.valid(i >= 0):
+                        i = z3.simplify(z3.If(i < 0, i + n, i))
+                    self.list_remove_at(obj, i)
+                    continue
             elif isinstance(tgt, ast.Name):
                 st.locals[tgt.id] = None
                 continue
